@@ -119,18 +119,20 @@ TCommitCall(e) ==
 InRange(i, r) == i >= r.first /\ i <= r.last
 TCommitRet(e) ==
   LET n == e.n
-      rc == [first |-> e.first, last |-> e.last] IN
+      rc == [first |-> e.first, last |-> e.last]
+      known == e.cmd \in DOMAIN receipts IN
   IF ~e.ok THEN /\ bad' = "" /\ UNCHANGED <<dvars, callAt, fence, cmdSnap, receipts, wfAuths>>
   ELSE
   /\ acked' = acked \cup {[i |-> i, e |-> log[n][i], at |-> step + 1] : i \in {j \in e.first..e.last : j <= Len(log[n])}}
-  /\ receipts' = IF e.cmd \in DOMAIN receipts THEN receipts ELSE (e.cmd :> rc) @@ receipts
+  /\ receipts' = IF known THEN receipts ELSE (e.cmd :> [first |-> e.first, last |-> e.last, variant |-> e.variant]) @@ receipts
   /\ bad' =
-       IF e.changed THEN "C03_ChangedContentAcknowledged"
+       \* a command identity acknowledged with one content is never acknowledged with another
+       IF known /\ receipts[e.cmd].variant # e.variant THEN "C03_ChangedContentAcknowledged"
        ELSE IF ~(e.first >= 1 /\ e.last - e.first + 1 = e.nrec /\ e.last <= Len(log[n]))
          THEN "C03_ReceiptNotExact"
        ELSE IF \E i \in e.first..e.last : log[n][i].c # e.cmd THEN "C03_ReceiptNotItsCommand"
        ELSE IF \E i \in 1..Len(log[n]) : log[n][i].c = e.cmd /\ ~InRange(i, rc) THEN "C03_CommandStoredTwice"
-       ELSE IF e.cmd \in DOMAIN receipts /\ receipts[e.cmd] # rc THEN "C03_RetryChangedRange"
+       ELSE IF known /\ (receipts[e.cmd].first # e.first \/ receipts[e.cmd].last # e.last) THEN "C03_RetryChangedRange"
        ELSE IF \E c2 \in DOMAIN receipts : c2 # e.cmd /\ ~(receipts[c2].last < e.first \/ receipts[c2].first > e.last)
          THEN "C03_ReceiptsOverlap"
        ELSE IF e.hw < e.last THEN "C03_ReceiptHWBelowLast"
